@@ -335,7 +335,7 @@ def value_attr(interp, base, attr, st, node):
             out.tags = (base.tags - {"transposed"}) if "transposed" in base.tags else (base.tags | {"transposed"})
         return out
     if attr in ("shape",):
-        co = count_origin(base)
+        co = count_origin(base) | frozenset(t_ for t_ in base.tags if isinstance(t_, tuple) and t_ and t_[0] == "ret")
         return Val(kind="tuple", dim=D0, elem=Val(kind="int", dim=D0, deps=base.deps, pdeps=base.pdeps, tags=co),
                    deps=base.deps, pdeps=base.pdeps, born=interp.time, tags=co)
     if attr in ("size", "ndim"):
@@ -429,7 +429,8 @@ def call_method(interp, base, name, node, args, kwargs, st):
             interp.emit(st, "reduce", node, fn=name, target=base, axis=ax, method=True)
             dim = dim_contract(dim) if ax is None or not (ax.has_const() and ax.const in (0,)) else dim
         if name == "tolist":
-            return Val(dim=dim, kind="list", deps=deps, pdeps=pdeps, born=t, tags=frozenset(["tolist"]))
+            return Val(dim=dim, kind="list", deps=deps, pdeps=pdeps, born=t,
+                       tags=frozenset(["tolist"]) | frozenset(t_ for t_ in base.tags if isinstance(t_, tuple) and t_ and t_[0] in ("ret", "len-of")))
         keep = frozenset(tg for tg in base.tags if isinstance(tg, tuple) and tg[0] in ("saved-centroid", "getter-of")) if name in ("copy", "astype") else frozenset()
         if name in ("copy", "astype"):
             keep = keep | frozenset([("val-of", interp.val_id(base))])
